@@ -197,6 +197,9 @@ var vtextSeeds = []vseed{
 	{ast.FormatHTML, false, "{# ", ""},
 	{ast.FormatHTML, false, "<script>\"", ""},
 	{ast.FormatHTML, false, "<style>'", ""},
+	{ast.FormatHTML, false, "<script></scri", ""},
+	{ast.FormatHTML, false, "<style></sty", ""},
+	{ast.FormatHTML, false, "<script>'</scri", ""},
 	{ast.FormatMarkdown, false, "http://", ""},
 	{ast.FormatMarkdown, false, "    ", ""},
 	{ast.FormatMarkdown, false, "\t", ""},
